@@ -7,6 +7,8 @@ NEXT Next
 INVARIANT TypeOK
 INVARIANT ZeroForEmpty
 INVARIANT AdditiveOverNuclides
+INVARIANT AdditiveOverSelections
+INVARIANT GammaAdditive
 INVARIANT Homogeneous
 INVARIANT AdditiveOverCompositions
 INVARIANT MissingZeroIsHarmless
